@@ -121,3 +121,18 @@ def field_path(n):
             return n["name"], path
         else:
             return None
+
+
+def mark_failures(I):
+    """wrap every library model of interpreter I: the first outcome on a path that reports failure (a negative value or NULL) is
+    recorded in the monitor as mon["libfail"] = "<function>@<caller>:<line>" - whichever way the model describes errno"""
+    for table, name, m in [(I.models, k, v) for k, v in I.models.items()] + [(I.overrides, k, v) for k, v in I.overrides.items() if k in OVERRIDES]:
+        def w(I_, fn, n, args, st, m=m, name=name):
+            res = []
+            for s, v in m(I_, fn, n, args, st):
+                if v != "NORETURN" and isinstance(v, frozenset) and v and (all_neg(v) or v == frozenset({"NULL"})) and "libfail" not in s.mon:
+                    s = s.copy()
+                    s.mon["libfail"] = "%s@%s:%d" % (name, fn.name, n["l"][0])
+                res.append((s, v))
+            return res
+        table[name] = w
